@@ -445,7 +445,7 @@ def run_c15(case):
             if case["kind"] == "static" and "got size 0" in str(ex):
                 stats["excluded_empty_partner"] = 1   # as in C02: empty density partner sample
             elif innermost_site(ex.__traceback__).endswith("_check_iteration_number") and (
-                    case.get("fault") or giveup_plausible(case.get("base"))):
+                    case.get("fault") or giveup_plausible(case.get("base") or {"filter": case.get("filter"), "n": case.get("n")})):
                 stats["documented_giveup"] = 1
             else:
                 out.append(viol("C15", "call", "raises:" + type(ex).__name__, innermost_site(ex.__traceback__),
@@ -578,10 +578,11 @@ def _run_adaptive(case, sim, out, stats, log):
     S = tp.samplers
     dom = B.build(case["dom"])
     n = int(case["n"])
+    flt = make_filter(case.get("filter"))
     if case["cls"] == "AdaptiveThreshold":
-        smp = S.AdaptiveThresholdRejectionSampler(dom, resample_ratio=float(case["ratio"]), n_points=n)
+        smp = S.AdaptiveThresholdRejectionSampler(dom, resample_ratio=float(case["ratio"]), n_points=n, filter_fn=flt)
     else:
-        smp = S.AdaptiveRandomRejectionSampler(dom, n_points=n)
+        smp = S.AdaptiveRandomRejectionSampler(dom, n_points=n, filter_fn=flt)
     fresh_rec = []
     rs = smp.random_sampler
     orig = rs.sample_points
@@ -621,6 +622,10 @@ def _run_adaptive(case, sim, out, stats, log):
             d = G.dev(case["dom"], P)
             if (d > G.TOL_ON).any():
                 out.append(viol("C15", "adaptive", "point-outside-domain", "", worst=float(d.max())))
+            if case.get("filter") and not filter_ok(case["filter"], P).all():
+                # the admissible region of a filtered sampler is the domain restricted by its filter
+                out.append(viol("C15", "adaptive", "point-violates-the-sampler's-filter", "",
+                                rows_bad=int((~filter_ok(case["filter"], P)).sum())))
             if last is None or loss is None:
                 if not torch.equal(t, new):
                     out.append(viol("C15", "adaptive", "first-set-is-not-the-fresh-draw", ""))
